@@ -276,8 +276,7 @@ def cases(tier, seed):
     for i in range(300 if tier == "quick" else 5000):
         spec = [zs[rnd.randrange(len(zs))], FIXED[rnd.randrange(len(FIXED))]][i % 2]
         t_us = rnd.randrange(-T.EPOCH_US + 5 * T.US_DAY, T.MAX_WALL - T.EPOCH_US - 5 * T.US_DAY)
-        if i % 3 == 0:
-            t_us -= t_us % T.MEG
+        t_us = t_us - t_us % T.MEG + [0, 500000, 250000, 750000, 125000][i % 5]       # fractions that a float carries exactly
         out.append({"stream": "dt-ctor", "fn": "dt_ctor", "args": ["fromtimestamp", spec, t_us]})
         out.append({"stream": "dt-ctor", "fn": "dt_ctor", "args": ["fromordinal", None, rnd.randrange(1, 3652060)]})
         W = rnd.randrange(T.US_DAY * 3, T.MAX_WALL - T.US_DAY * 3)
@@ -526,7 +525,11 @@ def model_calls(c, backend):
     return None
 
 
-def _proj_unary(po, extra, spec):
+def _naive_ts_safe(W):
+    return 400 * T.US_DAY < W < T.MAX_WALL - 400 * T.US_DAY
+
+
+def _proj_unary(po, extra, spec, W):
     """The integer projection of a unary observation that the Coq model computes."""
     d = dict((k, v) for k, v in po)
 
@@ -535,7 +538,7 @@ def _proj_unary(po, extra, spec):
     tt = d["timetuple"]
     ut = d["utctimetuple"]
     return {"toordinal": d["toordinal"], "weekday": d["weekday"], "isoweekday": d["isoweekday"], "isocalendar": d["isocalendar"],
-            "utcoffset": d["utcoffset"], "timestamp": d["timestamp"], "timetuple8": tt[:8] if tt and tt[0] != "E" else tt,
+            "utcoffset": d["utcoffset"], "timestamp": d["timestamp"] if (spec is not None or _naive_ts_safe(W)) else None, "timetuple8": tt[:8] if tt and tt[0] != "E" else tt,
             "utctimetuple": ut, "date": d["date"], "time": d["time"][:6] if d["time"][0] != "E" else d["time"],
             "hash": extra[7] if spec is not None else None, "type": extra[3]}
 
@@ -550,14 +553,15 @@ def model_result(c, backend, outs):
         (_, ordn, wd, iwd, iy, iw, idd, off, U, hk, y, mo, d, hh, mi, ss, yday, uflag, uy, umo, ud, uh, umi, us_, uwd, uyd, dy, dm, dd, th, tm, ts, tus) = o
         if spec is None:
             # naive timestamp: local time is UTC in the staged environment
-            ts_hex = _try(lambda: ((a[1] - T.EPOCH_US) / T.MEG).hex())
+            ts_hex = ((a[1] - T.EPOCH_US) / T.MEG).hex() if _naive_ts_safe(a[1]) else None
         else:
             ts_hex = ((U - T.EPOCH_US) / T.MEG).hex()
         return {"toordinal": ordn, "weekday": wd, "isoweekday": iwd, "isocalendar": [iy, iw, idd],
                 "utcoffset": None if off == NONE else off * T.MEG, "timestamp": ts_hex, "timetuple8": [y, mo, d, hh, mi, ss, wd, yday],
                 "utctimetuple": [uy, umo, ud, uh, umi, us_, uwd, uyd, 0] if uflag == 0 else ["E", "OverflowError"],
                 "date": ["Date", dy, dm, dd], "time": ["Time", th, tm, ts, tus, 0],
-                "hash": None if spec is None else hash(_dt.timedelta(microseconds=hk)), "type": "DateTime"}
+                # datetime_hash: hash(timedelta(days=toordinal, seconds, microseconds) - utcoffset(fold=0)): the wall value counted from ordinal 0
+                "hash": None if spec is None else hash(_dt.timedelta(microseconds=hk + T.US_DAY)), "type": "DateTime"}
     return o
 
 
@@ -568,7 +572,7 @@ def _norm_impl(c, r):
     if r[0] != 0:
         return r
     if fn == "dt_unary":
-        return _proj_unary(r[1], r[3], a[0])
+        return _proj_unary(r[1], r[3], a[0], a[1])
     if fn == "dt_timetz":
         return [0, 1 if r[1] == "Time" else 0] + r[2:]
     if fn == "dt_binary":
@@ -711,7 +715,8 @@ def deviations(c, r):
                     break
     elif fn == "dt_astz":
         s1, W, f, s2, kind = a
-        nb = T.native(W, f, T.ref_zone(s1))
+        # datetime.timezone(timedelta(0)) is the timezone.utc singleton: give the source its own object, as FixedTimezone(0) is on the pendulum side
+        nb = T.native(W, f, _dt.timezone(_dt.timedelta(seconds=s1), "src") if isinstance(s1, int) else T.ref_zone(s1))
         try:
             e = nb.astimezone(T.ref_zone(s2) if s1 != s2 else zoneinfo.ZoneInfo.no_cache(s2) if isinstance(s2, str) else _dt.timezone(_dt.timedelta(seconds=s2)))
             exp = [0, "DateTime", T.wall_of(e), e.fold, T.off_s(e), 1]
@@ -875,13 +880,13 @@ def known(c, backend, r):
             if (nat_first and _walls_skipped(s1, W1)) or (nat_second and _walls_skipped(s2, W2)):
                 if kinds == {"sub:value"} or (share and T.off_s(nx) != T.off_s(ny)):
                     return "sub-native-operand-in-gap-normalised"
-            # (3) the Interval length goes through float seconds: microseconds are lost once |delta| >= 2**53 us
+            # (3) the Interval length goes through float seconds: microseconds can be lost once |delta| >= 2**33 s (~272 years)
             es = _sub(nx, ny)
-            if kinds == {"sub:value"} and es[0] != "E" and abs((es[1] * 86400 + es[2]) * T.MEG + es[3]) >= 2 ** 53 - 2 ** 20:
+            if kinds == {"sub:value"} and es[0] != "E" and abs((es[1] * 86400 + es[2]) * T.MEG + es[3]) >= 2 ** 33 * T.MEG:
                 return "sub-length-float-roundtrip"
         if kinds == {"sub:value"} and s1 is None and s2 is None:
             es = _sub(nx, ny)
-            if es[0] != "E" and abs((es[1] * 86400 + es[2]) * T.MEG + es[3]) >= 2 ** 53 - 2 ** 20:
+            if es[0] != "E" and abs((es[1] * 86400 + es[2]) * T.MEG + es[3]) >= 2 ** 33 * T.MEG:
                 return "sub-length-float-roundtrip"
     if fn == "date_binary" and kinds == {"sub:value"}:
         return None
